@@ -75,6 +75,49 @@ def specs(T):
     T.body_contains(C, 'absolute_threshold', "cnum = int(cnum * ref_copies / ploidy)")
     T.body_contains(C, 'absolute_threshold',
                     "cnum = int(np.ceil(_log2_ratio_to_absolute_pure(row.log2, ref_copies)))")
+    # the whole per-row body, statement for statement: Model/Threshold.v `scan_row` / `scan_loop` is its literal
+    # transcription (Proofs/CallScan.v: C02_scan_equiv ties that walk to first_le / scale_cn / thr_cn)
+    T.body_contains(C, 'absolute_threshold', "\n".join([
+        "    absolutes = np.zeros(len(cnarr), dtype=np.float64)",
+        "    for idx, row in enumerate(cnarr):",
+        "        ref_copies = _reference_copies_pure(row.chromosome, ploidy, is_haploid_x_reference)",
+        "        if np.isnan(row.log2):",
+        "            logging.warning('log2=nan found; replacing with neutral copy number %s', ref_copies)",
+        "            absolutes[idx] = ref_copies",
+        "            continue",
+        "        cnum = 0",
+        "        for cnum, thresh in enumerate(thresholds):",
+        "            if row.log2 <= thresh:",
+        "                if ref_copies != ploidy:",
+        "                    cnum = int(cnum * ref_copies / ploidy)",
+        "                break",
+        "        else:",
+        "            cnum = int(np.ceil(_log2_ratio_to_absolute_pure(row.log2, ref_copies)))",
+        "        absolutes[idx] = cnum",
+        "    return absolutes"]))
+    # the order in which do_call composes the pieces (Model/Baf.v `do_call_row`): purity rewrite first, then the
+    # method on the rewritten table, then cn and the allelic split
+    T.body_contains(C, 'do_call', "\n".join([
+        "    if variants:",
+        "        outarr['baf'] = variants.baf_by_ranges(outarr).values",
+        "    if purity and purity < 1.0:",
+        "        logging.info('Rescaling sample with purity %g, ploidy %d', purity, ploidy)",
+        "        absolutes = absolute_clonal(outarr, ploidy, purity, is_haploid_x_reference, diploid_parx_genome, is_sample_female).clip(lower=0)",
+        "        outarr['log2'] = log2_ratios(outarr, absolutes, ploidy, is_haploid_x_reference, diploid_parx_genome)",
+        "        if variants:",
+        "            outarr['baf'] = rescale_baf(purity, outarr['baf'])",
+        "    elif method == 'clonal':",
+        "        logging.info('Calling copy number with clonal ploidy %d', ploidy)",
+        "        absolutes = absolute_pure(outarr, ploidy, is_haploid_x_reference)",
+        "    if method == 'threshold':"]))
+    T.body_contains(C, 'do_call', "absolutes = absolute_threshold(outarr, ploidy, thresholds, is_haploid_x_reference)")
+    T.body_contains(C, 'do_call', "\n".join([
+        "    if method != 'none':",
+        "        outarr['cn'] = absolutes.round().astype('int')",
+        "        if 'baf' in outarr:"]))
+    T.body_contains(C, 'do_call', "\n".join([
+        "            outarr[is_null, 'cn1'] = np.nan",
+        "            outarr[is_null, 'cn2'] = np.nan"]))
 
     # --- BAF rescale ----------------------------------------------------------------
     normal_baf = T.default(C, 'rescale_baf', 'normal_baf')
